@@ -77,6 +77,8 @@ def run(ctx):
     quick = ctx.tier == "quick"
     if ctx.replay and ctx.replay.get("key") in (S.KEY_PUBDATA, S.KEY_LIMIT):
         return replay_boundary(ctx, H, c)
+    if ctx.replay and "cases" in ctx.replay and ctx.replay["cases"] and ctx.replay["cases"][0][1] == "count":
+        return counting_context(ctx, H, ctx.rng, [tuple(x) for x in ctx.replay["cases"]])
     if ctx.replay and "cases" in ctx.replay and ctx.replay["cases"] and ctx.replay["cases"][0][1] == "memo":
         return memo_sequences(ctx, H, ctx.rng, [tuple(x) for x in ctx.replay["cases"]])
     if ctx.replay and "cases" in ctx.replay:
@@ -157,6 +159,41 @@ def run(ctx):
     compare(ctx, model, H, cases, {"types": len(S.TYPES)})
     boundary_findings(ctx, model, H, c, r)
     memo_sequences(ctx, H, r)
+    counting_context(ctx, H, r)
+
+
+def counting_context(ctx, H, r, cases=None):
+    """CountingContext::canFit/update (the figure that enforces the PopData size limit while a block is filled) against
+    the real PopData::estimateSize / toVbkEncoding().size(), with the limits exactly at, below and above the sizes and
+    counts reached around the 255 -> 256 length-prefix boundary of each kind (implementation oracle)"""
+    allorc, allcr = [], []
+
+    def run(cs):
+        res, orc, crashes = S.run_impl_bisect(ctx, H, cs, timeout=900, tag="count")
+        allorc.extend(orc)
+        allcr.extend(crashes)
+        return res
+    if cases is not None:
+        p1, res1, p2 = cases, run(cases), []
+    else:
+        p1, res1, p2 = S.counting_cases(r, run, ctx.tier == "quick")
+    res2 = run(p2) if p2 else {}
+    byid = {x[0]: x for x in p1 + p2}
+    for i, text in allorc[:5]:
+        ctx.violation({"kind": "input", "cases": [list(byid[i])] if i in byid else [], "oracle": text,
+                       "what": "CountingContext disagrees with PopData::estimateSize / the encoded size"})
+    for x in p1 + p2:
+        v = (res1 if x in p1 else res2).get(x[0], "")
+        if not v.startswith("OK"):
+            ctx.violation({"kind": "input", "cases": [list(x)], "impl": v[:300], "what": "count sequence did not complete"})
+            break
+    for case, rc, err in allcr[:2]:
+        ctx.violation({"kind": "input", "cases": [list(case)] if case else [], "rc": rc, "stderr": err,
+                       "what": "harness process died on a count sequence"})
+    steps = sum(int(v.split()[1]) for v in list(res1.values()) + list(res2.values()) if v.startswith("OK"))
+    ctx.cov["counting_context"] = {"sequences": len(p1) + len(p2), "canFit_steps_compared": steps,
+                                   "limits": "maxsize = size reached after a token -1/0/+1; per-kind count limit 255/256/257"}
+    ctx.cov["evaluations"] += len(p1) + len(p2)
 
 
 def memo_sequences(ctx, H, r, cases=None):
